@@ -11,6 +11,10 @@ Two document families = the claimed input domain of C03:
       comments, integration points (desc / title / foreignObject; mi mo mn ms mtext;
       annotation-xml[encoding=text/html|application/xhtml+xml]) explicitly closed, with well-nested HTML
       inside — including text-mode elements and, recursively, islands.
+ (iii) the shapes of package tb's findings (docs/pkg-tb.md §5: template + col, select popped with its template +
+      frameset, mglyph / malignmark in a MathML text integration point, frameset inside an integration point, and
+      the legacy-select-only shapes) with their near-misses — tag soup in the HTML namespace resp. well-nested
+      islands, i.e. inside (i) / (ii), but too rare to be hit by those streams.
 Restrictions that only serve the comparison with html5ever (see harness/src/lanes/h5.rs): no `&`, no
 NUL, valid UTF-8, no BOM at the start.
 """
@@ -207,7 +211,194 @@ KNOWN = [
     "<textarea a=><b>x</b></textarea>", "<script a=><b>x</b></script><i>", "<title a= ><b></title>",
     "<svg><desc><![CDATA[x<b>]]></desc></svg>", "<math><mi><![CDATA[<textarea>]]><b></b></mi></math>",
     "<frameset><iframe class=\"", "<select><title a",
+    "<template><col><textarea><script>alert(1)</script></textarea>", "<template><select></template><frameset><script><frame src=x></script>",
+    "<math><mi><mglyph><textarea><img src onerror=alert(1)>", "<svg><desc><frameset></frameset></desc><noframes><b>x</b></noframes>",
+    "<svg><desc><frameset></frameset></desc><![CDATA[<b>]]>",
+    "<table><td><select><td><select><xmp><script>alert(1)</script>", "<template><select></template><select><xmp>", "<body><frameset><select><noframes>",
 ]
+
+
+# ---------------------------------------------------------------- shapes of package tb's findings + near-misses
+# docs/pkg-tb.md §5. Each stream returns (label, document); label "<stream>:pos" = the shape is present (a
+# divergence is expected when the content tokenises differently as text and as markup), "<stream>:near" = a
+# near-miss (one ingredient removed: the oracle must stay silent or name something else).
+
+TEXT_SWITCH = ["textarea", "title", "style", "script", "xmp", "iframe", "noembed", "noframes", "noscript", "plaintext"]
+TB_CONTENT = ["<b>x</b>", "<script>alert(1)</script>", "x", "<!--c-->", "<img src onerror=alert(1)>", "<svg><g></g></svg>",
+              "</b>", "<![CDATA[x]]>", "<p>", "<frame src=x>", "<i>y", "a<br>b", ""]
+
+
+def tag_open(rng, name, extra=""):
+    return "<" + lex.caseify(rng, name) + extra + rng.choice(["", "", " id=a", " class='k'", "\n", " x=\"1\" y"]) + ">"
+
+
+def text_elem_tb(rng, name=None, close_p=0.85):
+    name = name or rng.choice(TEXT_SWITCH)
+    inner = rng.choice(TB_CONTENT)
+    if name == "script":
+        inner = inner.replace("<!--", "<!-")  # keep clear of the escaped states: one end tag ends the element
+    s = tag_open(rng, name) + inner
+    if rng.random() < close_p:
+        s += "</" + lex.caseify(rng, name) + ">"
+    return s
+
+
+def tb1(rng):
+    """F-tb-1: text-switching start tag "in column group" with a template as the current node."""
+    pre = rng.choice(["", "", "<!DOCTYPE html>", "<div>", "<body>", "<table>", "x", "<p>a"])
+    kind = rng.random()
+    before = "".join(rng.choice(["", "", " ", "\n", "<!--c-->", "<meta>", "<title>t</title>", "<script>s</script>", "<style></style>", "x"])
+                     for _ in range(rng.choice([0, 0, 1, 2])))
+    col = rng.choice(["<col>", "<COL span=2>", "<col/>", "<col><col>", "<col></col>", "<col></colgroup>", "<col><template></template>",
+                      "<col><!--c-->", "<col> ", "<col><template><b></b></template>", "<col><div>", "<col></div><tr>"])
+    tail = rng.choice(["", "", "</template>", "<b>t</b>", "</template><textarea><i></textarea>", "<p>z", "</template><b>k</b>"])
+    n_elems = rng.choice([1, 1, 1, 2])
+    body = "".join(text_elem_tb(rng) for _ in range(n_elems))
+    if kind < 0.5:
+        label, doc = "tb1:pos", pre + tag_open(rng, "template") + before + col + body + tail
+        if rng.random() < 0.2:  # nested in another template
+            doc = pre + "<template>" + tag_open(rng, "template") + before + col + body + "</template>" + tail
+    else:
+        label = "tb1:near"
+        v = rng.randrange(8)
+        if v == 0:    # no template at all
+            doc = pre + before + col + body + tail.replace("</template>", "")
+        elif v == 1:  # a real table: colgroup is the current node
+            doc = pre + "<table>" + before + col + body + tail.replace("</template>", "</table>")
+        elif v == 2:  # colgroup / col in colgroup under the template: current node IS a colgroup
+            doc = pre + tag_open(rng, "template") + before + rng.choice(["<colgroup>", "<colgroup><col>", "<colgroup></colgroup>", "<colgroup><col></colgroup>"]) + body + tail
+        elif v == 3:  # the template mode was replaced before the col
+            doc = pre + tag_open(rng, "template") + rng.choice(["<div></div>", "<tr>", "<td>", "<caption></caption>", "<tbody>", "<p>", "<b>"]) + col + body + tail
+        elif v == 4:  # template closed before the text element
+            doc = pre + tag_open(rng, "template") + before + col + "</template>" + body + tail.replace("</template>", "")
+        elif v == 5:  # no col
+            doc = pre + tag_open(rng, "template") + before + body + tail
+        elif v == 6:  # the shape, but nothing that tokenises differently
+            name = rng.choice(TEXT_SWITCH[:-1])
+            doc = pre + tag_open(rng, "template") + before + col + "<" + name + ">" + rng.choice(["x", "", "a b"]) + "</" + name + ">" + tail
+        else:         # template inside svg: a foreign element
+            doc = pre + "<svg><template>" + col + "</template></svg>" + body
+    return label, doc
+
+
+def tb2(rng):
+    """F-tb-2: select popped with its template; guard stays "in select"; frameset; script / textarea."""
+    pre = rng.choice(["", "", "<!DOCTYPE html>", " ", "<!--c-->", "<head>", "<div>", "<html>"])
+    tpre = rng.choice(["", "", " ", "<div>", "<p>x</p>", "<b>"])
+    sel = tag_open(rng, "select") + rng.choice(["", "", "<option>a", "<option>a</option>", "<optgroup>", "x"])
+    between = rng.choice(["", "", "<!--c-->", " ", "<meta>", "\n"])
+    fs = tag_open(rng, "frameset") + rng.choice(["", "", "<frame>", "<frame src=y>", " "])
+    elem_name = rng.choice(["script", "script", "script", "textarea"])
+    elem = text_elem_tb(rng, elem_name)
+    tail = rng.choice(["", "", "</frameset>", "<noframes><b></noframes>", "<frame>", "</frameset><noframes>z</noframes>"])
+    if rng.random() < 0.5:
+        return "tb2:pos", pre + "<template>" + tpre + sel + "</template>" + between + fs + elem + tail
+    v = rng.randrange(7)
+    if v == 0:    # select closed explicitly
+        doc = pre + "<template>" + tpre + sel + "</select></template>" + between + fs + elem + tail
+    elif v == 1:  # no template: select closed
+        doc = pre + sel + "</select>" + between + fs + elem + tail
+    elif v == 2:  # no template, select left open (frameset is then ignored)
+        doc = pre + sel + between + fs + elem + tail
+    elif v == 3:  # select left through an input
+        doc = pre + "<template>" + tpre + sel + "<input></template>" + between + fs + elem + tail
+    elif v == 4:  # frameset-ok already "not ok" / a body with content: the frameset is ignored
+        doc = pre + "<template>" + tpre + sel + "</template>" + rng.choice(["x", "<p>x", "<br>", "<table>", "<body>"]) + fs + elem + tail
+    elif v == 5:  # other text tags: refused by the guard ("in select")
+        doc = pre + "<template>" + tpre + sel + "</template>" + between + fs + text_elem_tb(rng, rng.choice(["title", "style", "xmp", "noframes", "iframe"])) + tail
+    else:         # no frameset
+        doc = pre + "<template>" + tpre + sel + "</template>" + between + elem + tail
+    return "tb2:near", doc
+
+
+def tb4(rng):
+    """F-tb-4: mglyph / malignmark directly inside a MathML text integration point."""
+    pre = rng.choice(["", "", "<p>", "<div>a", "<!DOCTYPE html>"])
+    wrap_o, wrap_c = rng.choice([("", ""), ("", ""), ("<mrow>", "</mrow>"), ("<semantics>", "</semantics>")])
+    ip = rng.choice(MATH_TEXT_IPS)
+    g = rng.choice(["mglyph", "malignmark"])
+    gname = lex.caseify(rng, g)
+    before = rng.choice(["", "", "x", "<b></b>", " ", "<!--c-->"])
+    inner = rng.choice([text_elem_tb(rng, close_p=1.0), text_elem_tb(rng, close_p=1.0), "<![CDATA[<b>]]>", "<![CDATA[x]]>", "<g></g>",
+                        "x", "", "<mglyph></mglyph>", text_elem_tb(rng, close_p=0.3)])
+    after = rng.choice(["", "", "x", "<b>k</b>", "<![CDATA[y]]>", text_elem_tb(rng, close_p=1.0)])
+    tail = rng.choice(["", "<p>y</p>", "<textarea><b></textarea>", "x"])
+    math_o, math_c = "<math>" + wrap_o, wrap_c + "</math>"
+    if rng.random() < 0.5:
+        doc = pre + math_o + f"<{ip}>" + before + f"<{gname}{fattrs(rng)}>" + inner + f"</{gname}>" + after + f"</{ip}>" + math_c + tail
+        if rng.random() < 0.15:
+            doc = doc[: rng.randrange(len(doc) // 2, len(doc) + 1)]
+        return "tb4:pos", doc
+    v = rng.randrange(6)
+    if v == 0:    # directly in math: foreign for both
+        doc = pre + math_o + f"<{gname}>" + inner + f"</{gname}>" + math_c + tail
+    elif v == 1:  # inside an HTML element inside the integration point: an unknown HTML element for both
+        w = rng.choice(["b", "span", "div"])
+        doc = pre + math_o + f"<{ip}><{w}><{gname}>" + inner + f"</{gname}></{w}></{ip}>" + math_c + tail
+    elif v == 2:  # self-closing: popped at once
+        doc = pre + math_o + f"<{ip}>" + before + f"<{gname}/>" + inner + after + f"</{ip}>" + math_c + tail
+    elif v == 3:  # an HTML integration point of SVG: HTML rules
+        sip = rng.choice(SVG_IPS)
+        doc = pre + f"<svg><{sip}><{gname}>" + inner + f"</{gname}></{sip}></svg>" + tail
+    elif v == 4:  # annotation-xml[text/html]: HTML rules
+        doc = pre + math_o + "<annotation-xml encoding=text/html>" + f"<{gname}>" + inner + f"</{gname}></annotation-xml>" + math_c + tail
+    else:         # plain HTML
+        doc = pre + f"<{gname}>" + inner + f"</{gname}>" + tail
+    return "tb4:near", doc
+
+
+def tb5(rng):
+    """F-tb-5: a frameset start tag inside an integration point while frameset-ok is still "ok"."""
+    ok_pre = rng.choice(["", "", "<!DOCTYPE html>", " ", "<div>", "<p>", "<!--c-->", "<b>", "<html>"])
+    root_o, ip_o, ip_c, root_c = rng.choice([
+        ("<svg>", "<desc>", "</desc>", "</svg>"), ("<svg>", "<title>", "</title>", "</svg>"),
+        ("<svg>", "<foreignObject>", "</foreignObject>", "</svg>"), ("<math>", "<mi>", "</mi>", "</math>"),
+        ("<math>", "<annotation-xml encoding=text/html>", "</annotation-xml>", "</math>"),
+        ("<svg><g>", "<desc>", "</desc>", "</g></svg>"), ("<math><mrow>", "<mtext>", "</mtext>", "</mrow></math>")])
+    isl_o, isl_c = root_o + ip_o, ip_c + root_c
+    inner_o, inner_c = rng.choice([("", ""), ("", ""), ("<b>", "</b>"), ("<div>", "</div>"), ("<span><i>", "</i></span>")])
+    fs = tag_open(rng, "frameset") + rng.choice(["", "", "<frame>", "<frame src=x>"]) + rng.choice(["</frameset>", "</frameset>", ""])
+    # what follows the integration point *inside* the island is where the two parsers are in different namespaces
+    mid = rng.choice(["<![CDATA[<b>]]>", "<noframes><b>x</b></noframes>", "<noframes><!--</noframes>", "<g></g>", "", "x", "<![CDATA[x]]>"])
+    tail = rng.choice(["<noframes><b>x</b></noframes>", "<![CDATA[<b>]]>", "<noframes><!--</noframes>", "<g></g>", "x", "",
+                       "<noframes></b></noframes><frame>", "<!--c-->"])
+    if rng.random() < 0.5:
+        doc = ok_pre + isl_o + inner_o + fs + inner_c + rng.choice([ip_c, ip_c, ""]) + mid + rng.choice([root_c, root_c, ""]) + tail
+        return "tb5:pos", doc
+    v = rng.randrange(5)
+    if v == 0:    # frameset-ok "not ok": text / br / … before
+        # (an explicit <body> start tag sets the flag to "not ok" too)
+        doc = rng.choice(["x", "<br>", "<p>x", "<input>", "<li>", "a<div>", "<body>"]) + isl_o + inner_o + fs + inner_c + isl_c + tail
+    elif v == 1:  # text inside the island before the frameset
+        doc = ok_pre + isl_o + rng.choice(["a", "<li>", "<br>", "<b>x"]) + inner_o + fs + inner_c + isl_c + tail
+    elif v == 2:  # frameset as a foreign element (not in an integration point)
+        root = rng.choice(["svg", "math"])
+        doc = ok_pre + f"<{root}>" + fs + f"</{root}>" + tail.replace("<![CDATA[<b>]]>", "")
+    elif v == 3:  # frameset outside any island
+        doc = ok_pre + fs + tail.replace("<![CDATA[<b>]]>", "<!--d-->")
+    else:         # island without frameset
+        doc = ok_pre + isl_o + inner_o + inner_c + isl_c + tail
+    return "tb5:near", doc
+
+
+def tb3(rng):
+    """F-tb-3a/b/c: divergences under the *legacy* select text only; html5ever 0.39 implements the 2025 text, so
+    these must show NO divergence (the guard is merely conservative there)."""
+    t = rng.choice(["xmp", "noframes", "title", "style", "textarea", "script", "iframe", "noembed", "noscript"])
+    elem = text_elem_tb(rng, t)
+    v = rng.randrange(3)
+    if v == 0:
+        doc = rng.choice(["<table><td>", "<table><tr><td>", "<table><tbody><tr><th>", "<table><caption>"]) + "<select>" + rng.choice(["", "<option>a"]) \
+            + rng.choice(["<td>", "<tr>", "<caption>", "<th>"]) + "<select>" + elem + rng.choice(["", "<script>alert(1)</script>", "</select>x"])
+    elif v == 1:
+        doc = "<template>" + rng.choice(["", "<div>"]) + "<select></template><select>" + elem + rng.choice(["", "</select>", "<b>x</b>"])
+    else:
+        doc = rng.choice(["<body>", "<p>", "x"]) + "<frameset>" + "<select>" + elem + rng.choice(["", "</select>"])
+    return "tb3:legacy", doc
+
+
+TB_STREAMS = [tb1] * 3 + [tb2] * 2 + [tb4] * 2 + [tb5] * 2 + [tb3]
+LABELS = {}
 
 
 def cuts_for(rng, n):
@@ -227,16 +418,23 @@ def gen(rng, n, tier, pid):
     out = []
     for _ in range(n):
         r = rng.random()
-        if r < 0.55:
+        label = None
+        if r < 0.45:
             doc = soup_document(rng)
-        elif r < 0.985:
+        elif r < 0.785:
             doc = foreign_document(rng, no_known=rng.random() < 0.4)
+        elif r < 0.985:
+            label, doc = rng.choice(TB_STREAMS)(rng)
+            doc = clean(doc)
         else:
             doc = rng.choice(KNOWN)
         if doc.startswith("\ufeff"):
             doc = doc[1:]
         b = doc.encode("utf-8")
-        out.append("%s %s %s" % (rng.choice(MODES), b.hex() or "-", ",".join(map(str, cuts_for(rng, len(b)))) or "-"))
+        case = "%s %s %s" % (rng.choice(MODES), b.hex() or "-", ",".join(map(str, cuts_for(rng, len(b)))) or "-")
+        if label:
+            LABELS[case] = label
+        out.append(case)
     return out
 
 
@@ -258,6 +456,11 @@ def stats(cases, obs):
         if f[2] != "-":
             c["chunked"] += 1
         c["result:" + o.split()[0]] += 1
+        lab = LABELS.get(case)  # only known when gen() ran in this process
+        if lab:
+            c["stream:" + lab] += 1
         for part in o.split(" ||ORACLE:")[1:]:
             c["oracle:" + part.split()[0]] += 1
+            if lab:
+                c["stream:" + lab + " -> " + part.split()[0]] += 1
     return dict(c)
